@@ -422,5 +422,108 @@ def replay_e2e(case):
     check_e2e(Ctx(PROPERTY, "e2e", "quick", 0, 0, 1), tuple(c))
 
 
+# ---------------------------------------------------------------- re-login on a session that already has a data connection
+async def _relogin(loop, la, lb, direction, connect_first, size):
+    loop.net.record_writes = True
+    loop.net.fixed_latency = 0.0
+    loop.net.fixed_segment = 1 << 30
+    key = ("write" if direction == "down" else "read") + "_speed_limit"
+    users = [aioftp.User("a", "p", **({key: la} if la else {})), aioftp.User("b", "p", **({key: lb} if lb else {}))]
+    server = aioftp.Server(users, path_io_factory=aioftp.MemoryPathIO, block_size=256)
+    await server.start(HOST, PORT)
+    harness.mem_populate(server, {"/": DIR, "/f": bytes(i % 251 for i in range(size))})
+    raw = harness.Raw(HOST, PORT, patience=5000)
+    await raw.connect()
+    await raw.cmd("USER a")
+    await raw.cmd("PASS p")
+    await raw.cmd("EPSV")
+    dsock = None
+    if connect_first:
+        dsock = await raw.open_data()
+        await asyncio.sleep(0.05)
+    await raw.cmd("USER b")
+    t_b = loop.time()
+    await raw.cmd("PASS p")
+    if dsock is None:
+        dsock = await raw.open_data()
+        await asyncio.sleep(0.05)
+    t_cmd = loop.time()
+    code, _ = await raw.cmd("RETR /f" if direction == "down" else "STOR /up")
+    if code != "150":
+        raise Violation("C15/relogin/harness_transfer_refused", dict(code=code))
+    if direction == "down":
+        data, eof = await harness.read_all(dsock[0], 5000)
+        dsock[1].close()
+    else:
+        payload = bytes(i % 251 for i in range(size))
+        for k in range(0, size, 256):
+            dsock[1].write(payload[k:k + 256])
+        dsock[1].close()
+    code2, _ = await raw.reply()
+    t_done = loop.time()
+    ctrl_s = raw.w.transport.peer
+    data_s = dsock[1].transport.peer
+    raw.close()
+    await asyncio.wait_for(server.close(), 1000)
+    return dict(t_b=t_b, t_cmd=t_cmd, t_done=t_done, done=code2, ctrl_writes=list(ctrl_s.write_log or []), data_writes=list(data_s.write_log or []))
+
+
+def relogin_cases(tier):
+    out = []
+    for la, lb in ((None, 2000), (2000, None), (50000, 1500), (1500, 50000), (None, 700)):
+        for direction in ("down", "up"):
+            for connect_first in (True, False):
+                for size in ((6000,) if tier == "quick" else (6000, 300, 20000)):
+                    out.append((la, lb, direction, connect_first, size))
+    return out
+
+
+def judge_relogin(case, out):
+    la, lb, direction, connect_first, size = case
+    detail = dict(limit_first_user=la, limit_second_user=lb, direction=direction, data_connection_before_relogin=connect_first, size=size,
+                  duration=out["t_done"] - out["t_cmd"])
+    slack = 2 * (256 + 256) + 64
+    dur = out["t_done"] - out["t_cmd"]
+    if out["done"] != "226":
+        raise Violation("C15/relogin/transfer_failed", detail)
+    if lb:
+        # the transfer runs as user b: b's limit bounds it (anchored at b's login, when b's throttle joined the session)
+        if direction == "down":
+            ev = sorted([e for e in out["ctrl_writes"] + out["data_writes"] if e[0] >= out["t_b"]])
+            t0 = ev[0][0] if ev else out["t_b"]
+            cum = 0
+            for t, n in ev:
+                if cum > lb * (t - t0) + slack:
+                    raise Violation("C15/relogin/down/runs_ahead_of_the_new_users_limit",
+                                    dict(detail, at=t - t0, bytes_before=cum, allowed=lb * (t - t0) + slack))
+                cum += n
+        else:
+            if size > slack and (out["t_done"] - out["t_b"]) < (size - slack) / lb - 1e-6:
+                raise Violation("C15/relogin/up/runs_ahead_of_the_new_users_limit", dict(detail, minimum=(size - slack) / lb))
+        if dur > (size + 600) / lb + slack / lb + 1e-6:
+            raise Violation(f"C15/relogin/{direction}/extra_delay", dict(detail, bound=(size + 600) / lb + slack / lb))
+    else:
+        # user b has no limit: the previous user's limit must not slow the transfer down
+        if dur > 0.5:
+            raise Violation(f"C15/relogin/{direction}/delayed_by_the_previous_users_limit", detail)
+
+
+def part_relogin(ctx):
+    for case in relogin_cases(ctx.tier)[ctx.shard::ctx.nshards]:
+        out = simnet.run(lambda loop: _relogin(loop, *case))
+        ctx.count(case, True, sample=dict(limit_first_user=case[0], limit_second_user=case[1], direction=case[2],
+                                          data_connection_before_relogin=case[3], size=case[4], duration=round(out["t_done"] - out["t_cmd"], 3)),
+                  classes=["dir_" + case[2], "connect_first_%s" % case[3]])
+        try:
+            judge_relogin(case, out)
+        except Violation as v:
+            ctx.fail(v.sig, dict(kind="relogin", case=list(case)), v.detail)
+
+
+def replay_relogin(case):
+    c = tuple(case["case"])
+    judge_relogin(c, simnet.run(lambda loop: _relogin(loop, *c)))
+
+
 def plan(tier):
-    return [("api", 8), ("e2e", 8)]
+    return [("api", 8), ("e2e", 6), ("relogin", 2)]
